@@ -339,6 +339,9 @@ def _pipe_log(q):
 
 def judge_c02(d):
     q, impl, model = d["query"], d["impl"], d["model"]
+    if q.startswith("c08 "):
+        # an HTTP/1.1 tunnel's first payload bytes may share a segment with the request head (suite c08 runs here too)
+        return judge_c08(d)
     if q.startswith("c02 h3streams "):
         ops = q.split()[3].split(";")
         for k, (a, b) in enumerate(zip(impl.split(" | "), model.split(" | "))):
@@ -696,7 +699,8 @@ PROPS = {
              "proxy) and the SNI rotating over them; 8 TCP clients per list send a real ClientHello carrying a chosen "
              "random and see a ServerHello or the end of the stream; 5 (10) quiche clients per list complete the QUIC handshake and ask "
              "for a health check (served, or dropped before any request); the verdict is compared with the model for peer 127.0.0.1 "
-             "and the random actually used",
+             "and the random actually used"
+             " Also 3 (thorough 8) hellos per rule list spread over two TLS records (cut after 4, 20, 39 bytes): the endpoint's look at the first record cannot determine the random, the model is asked with the random unavailable - lists with a random pattern fail closed",
         explanation="theorems first_match_wins, default_allow, fail_closed_without_random, prefix/mask semantics, "
                     "malformed_never_matches, mapped_peer_eq_v4_peer, deny_precedes_handshake about TT/Model/Rules.lean",
         trusted=["ipnet CIDR parsing and hex::decode (the harness passes parsed CIDRs to the model; hex decoding is modelled)",
@@ -756,7 +760,8 @@ PROPS = {
         rule="150 (thorough 1500) host configurations over names with dot-suffix overlaps and alternative SNIs of the form <l>.<main>, "
              "plain, and colliding; every non-empty subset of listen protocols; reverse proxy on/off; SNIs = every configured name, "
              "user.<name>, <name>., .<name>, upper case, alternative SNIs, unknown; ALPN lists: empty, each of {h3,h2,http/1.1,spdy/3, "
-             "non-UTF-8, H2}, random pairs/triples - through the real TlsDemux::new (real PEM files, one per host entry so that the "
+             "non-UTF-8, H2, and look-alikes of the three identifiers: h3-29, h3x, h2c, h22, http/1.10, http/1.0, http/1, HTTP/1.1, h, H3, xh3, "
+             "h3 + NUL, ' h2'}, random pairs/triples - through the real TlsDemux::new (real PEM files, one per host entry so that the "
              "certificate path identifies the entry) and select; reload histories (valid, duplicate names, empty main, unloadable "
              "certificate) on a live Core; 4 threads selecting during alternating reloads"
              " Every pair of host classes sharing a name (16 pairs) must be refused at build time and at reload."
@@ -812,7 +817,7 @@ PROPS = {
     ),
     "C02": dict(
         retry_on_failure=True,
-        suites=["c02", "c02live", "c02h3"],
+        suites=["c02", "c02live", "c02h3", "c08"],
         judge=judge_c02,
         level="proof",
         rule="3000 (thorough 40000) random duplex scripts: per direction 0-4 chunks (sizes 0,1,2,3,5,8) then EOF / read error / silence, "
@@ -834,7 +839,8 @@ PROPS = {
              "the other side must see its connection end within 3 s and hold nothing but a prefix of what was sent; three sessions with four "
              "concurrent requests ended in different ways; at the end every operation each HTTP/3 codec performed on its stream table "
              "(request, client FIN, client reset, half shutdowns, messages for unknown streams; about 110 per quick run, recorded by the door) "
-             "is replayed by the Lean model TT.H3Streams, which must hold the same table after each",
+             "is replayed by the Lean model TT.H3Streams, which must hold the same table after each"
+             " The HTTP/1.1 head / payload suite of C08 (c08) runs here as well: payload that shares a segment with the CONNECT head is the start of the relayed stream. Directed pipe histories: one direction ends at once, the other delivers 3 or 6 chunks with gaps of T/2, 3T/4, T-1 into a sink that takes everything / one byte per write / is slow to become writable (the replay checks that the surviving direction is cancelled only at its own timer, `survivorDeadline`)",
         explanation="theorems stream_invariant, delivered_is_prefix, credit_*, finished_complete, eof_only_when_drained, eof_after_writes, "
                     "restart_preserves, no_call_after_failure, duplex_* about TT/Model/Pipe.lean for every answer sequence; "
                     "table_invariant, read_finished_keeps_response_side, reset_removes_stream, halves_end_independently, "
@@ -869,7 +875,8 @@ PROPS = {
              "timeout 1.2 s; at the end the connection table and the deadlines must be empty within 9 s); the door records every operation on "
              "the multiplexer's deadline table (arm, remove, loop iteration with what expired and what quiche asked to re-arm) and the "
              "state it left; the Lean model TT.QuicTimers replays the operations and must reach the same deadline table and "
-             "closest_deadline after each one; the two invariants are also checked directly on the recorded states",
+             "closest_deadline after each one; the two invariants are also checked directly on the recorded states"
+             " Directed histories of half-closed tunnels with steady traffic in the other direction (see C02); theorems half_closed_not_early / half_closed_transfer_restarts",
         explanation="theorems idle_not_early, idle_bound_2T, progress_at_deadline_keeps_open, wf_step about the Timer model of "
                     "TT/Model/Pipe.lean; establishment_timeout_reported, establishment_in_time_connected, "
                     "establishment_timeout_destination_independent about TT.Dispatch.handle (the request path model of C10); "
@@ -1050,7 +1057,8 @@ PROPS = {
              "open (QUIC idle timeout 2 s from the client's transport parameters; once the origin sends 1000 bytes a second later): the "
              "gauges must be back at zero within 7 s."
              " The SOCKS5 forwarder's multiplexer histories of C07 (suite c07socks: outbound_udp_sockets = one per association, "
-             "released with the association's last flow) are run here too",
+             "released with the association's last flow) are run here too"
+             " Before the listener is queried, two connections that send nothing and one that sends half a request line are opened to it and kept: the scrape, the health check and the unknown path must still be answered (2 s)",
         explanation="theorems cells_equal_objects, gauges_nonneg, all_clients_gone_sessions_udp_zero, all_clients_gone_everything_zero, "
                     "refused_connect_balanced, hanging_connect_released_by_timeout, counters_monotone, up_adds_exactly, "
                     "down_adds_exactly, no_relay_no_bytes, half_closed_tunnel_released_when_both_ended, icmp_counts_only_relayed, udp_bytes_follow_multiplexer, documented_series, documented_paths about "
@@ -1090,7 +1098,8 @@ PROPS = {
              " HTTP/3 (suite c17h3, wall clock): 24 (thorough 120) GET / POST requests through the real QUIC listener and direct forwarder to "
              "a loopback origin: Content-Length, chunked and close-delimited responses of 0-40000 bytes after 0-2 interim heads, in 3 "
              "segmentations, a client that takes everything or 300 bytes per read; checked: the request the origin saw (line, Host, end-to-"
-             "end headers, no Proxy-Authorization, body), status, X-A header, no hop-by-hop header, exact body, clean end of the stream",
+             "end headers, no Proxy-Authorization, body), status, X-A header, no hop-by-hop header, exact body, clean end of the stream"
+             " Response heads with 31, 32, 33, 63, 64, 65, 100, 127, 128, 129, 200 header lines (whole and cut in the middle, client accepting 3 bytes first): the model refuses above `responseHeaderCapacity` = 128 (constants regenerated from the code), the implementation must answer and not spin (every scripted run is watched)",
         explanation="theorems segmentation_and_backpressure_independent, independent_after_origin_close, delivery_monotone, "
                     "chunked_body_delivered_exactly, content_length_body_delivered_exactly, close_delimited_body_delivered_exactly, "
                     "bodiless_response_ends_with_head, head_204_304_are_bodiless, interim_response_is_transparent, "
@@ -1125,7 +1134,8 @@ PROPS = {
              "during 300 ms before the submission; after it every QUIC connection must be closed by the endpoint within 5 s, "
              "completion() must return within 10 s, and a new session must not be served afterwards."
              " Binary (suite c19bin): the real endpoint process with an HTTP/3 session, an idle TLS connection and a silent TCP "
-             "connection is sent SIGINT: it must exit with code 0 within 10 s and the HTTP/3 client must see its connection closed",
+             "connection is sent SIGINT: it must exit with code 0 within 10 s and the HTTP/3 client must see its connection closed"
+             " HTTP/2 with a request in flight: a CONNECT whose outbound attempt takes 5 s is pending when the shutdown is submitted; a second request is handed to the client's connection 0..4 scheduler turns before, or 0..2 after, the submission (in one of these it is on the wire but unread when the wind-down starts), or not at all: the first request must be answered 200 when its attempt completes, the session must not end before, and completion() follows once the streams have ended",
         explanation="theorems registered_before_submit_observes, waiting_participant_is_woken, no_submit_no_notification, "
                     "completion_iff_all_finished, completion_stable, late_registration_gets_no_guard about TT/Model/Shutdown.lean",
         trusted=["tokio broadcast (capacity 1, lag) and mpsc close semantics as modelled",
